@@ -394,7 +394,7 @@ theorem sum_flatten_int (l : List (List Int)) : l.flatten.sum = (l.map List.sum)
   | cons x xs ih => simp [List.sum_append, ih]
 
 theorem padTo_sum (l : List Int) (m : Nat) : (padTo l m).sum = l.sum := by
-  unfold padTo; simp [List.sum_append, sum_replicate_zero]
+  unfold padTo; simp [List.sum_append]
 
 /-- `roundUp size n = q * n` with `q` the least number of blocks of `n` that hold `size`. -/
 theorem roundUp_spec (size n : Nat) (hn : 0 < n) :
